@@ -219,6 +219,13 @@ where
         self.check_rep();
     }
 
+    /// Verification hook: returns `(consumed_prefix, backing container length)`.
+    #[cfg(woodpile_verif)]
+    #[must_use]
+    pub fn verif_rep(&self) -> (usize, usize) {
+        (self.consumed_prefix, self.container.slice().len())
+    }
+
     /// Enforce some invariant on entry/exit of public methods.
     #[inline(always)]
     #[cfg_attr(test, mutants::skip)] // obviously, removing checks will not be detected.
